@@ -103,6 +103,7 @@ def renameEfun (pol : Policy) (ex : List CStr) (sym : Bool) (a b : CStr) : List 
     | some to =>
       let from' := if from_.length > 1 ∧ from_.getLast? = some '/' then stripTrailSlash from_ else from_
       let (e3, r3) := ask pol false to "file_size"            -- file_size (to)
+      if (pol.verdict to).raises then e1 ++ e2 ++ e3 else     -- an error in the master ends the efun here
       let st := match r3 with
         | none => []
         | some q => [Ev.fs "stat" false q]
@@ -195,6 +196,17 @@ def efunEvents (pol : Policy) (ex : List CStr) (efun : String) (a b : CStr) : Li
   | "save_object" => saveEfun pol ex a
   | "ed" => edEfun pol ex a b
   | _ => [.note s!"badefun {efun}"]
+
+def Ev.isValid : Ev → Bool
+  | .valid .. => true
+  | _ => false
+
+/-- with a master object that does not define valid_read / valid_write the apply returns NULL, which
+    `check_valid_path` treats exactly like the answer 1 (`Verdict.absent`), and no master function runs, so
+    nothing is logged: the trace is the one of the permissive master without its consultation lines -/
+def sysEvents (masterAbsent : Bool) (pol : Policy) (ex : List CStr) (efun : String) (a b : CStr) : List Ev :=
+  if masterAbsent then (efunEvents .allow ex efun a b).filter (fun e => !e.isValid)
+  else efunEvents pol ex efun a b
 
 /-! ### compiler: load_object, #include, inherit -/
 
